@@ -49,7 +49,8 @@ func (fr *Frame) moveLocalsToShared() {
 		return
 	}
 	// invokeClosure passes the closure's Shared, which other threads may be using
-	if fr.shared.Lock() {
+	concurrent := fr.shared.Lock()
+	if concurrent {
 		defer fr.shared.Unlock()
 	}
 	localNames := fr.fn.Names[:fr.fn.Nstack]
@@ -57,6 +58,9 @@ func (fr *Frame) moveLocalsToShared() {
 	for j, sname := range sharedNames {
 		for i, lname := range localNames {
 			if lname == sname {
+				if concurrent && fr.locals[i] != nil {
+					fr.locals[i].SetConcurrent() // other threads reach it via the closure
+				}
 				fr.shared.values[j] = fr.locals[i]
 				break
 			}
@@ -174,6 +178,9 @@ func (fr *Frame) getSetSharedSlot(idx int, val Value,
 		panic("uninitialized variable: " + fr.fn.VarName(idx))
 	}
 	val = op(orig, val)
+	if fr.shared.concurrent && val != nil {
+		val.SetConcurrent() // other threads reach it via the closure
+	}
 	fr.shared.values[i] = val
 	if retOrig {
 		return orig
@@ -185,6 +192,9 @@ func (fr *Frame) getSetSharedSlot(idx int, val Value,
 func (fr *Frame) setSharedSlot(idx int, val Value) {
 	if fr.shared.Lock() {
 		defer fr.shared.Unlock()
+		if val != nil {
+			val.SetConcurrent() // other threads reach it via the closure
+		}
 	}
 	fr.shared.values[idx-SharedSlotStart] = val
 }
